@@ -153,7 +153,8 @@ CHECKS = {
              'refused connections, reuse) are validated by TLC against the pool observer: live connections <= size, result '
              'carries the marker of its own envelope, every attempt returns, one message at a time per connection, RSET after a '
              'failed transaction; downstreams that hang up on idle connections, send reply lines nobody asked for, or answer RSET late are part of the schedules. '
-             'BlockingDeque.tla (the request queue) is validated step by step against random programs on the real class.',
+             'BlockingDeque.tla (the request queue) is validated step by step against random programs on the real class, and the SMTP / LMTP pool executions '
+             'are validated as behaviours of RelayPool.tla itself (Trace_PoolD: silent client steps, len(pool) and len(queue) compared at quiescent points).',
         design='5/C19', technique='TLA+ pool model (TLC exhaustive, deviation switch) + TLC trace validation of real pool executions',
         note='In-memory scripted SMTP/LMTP downstream; loopback HTTP peer for the HttpRelay pool (real sockets: virtual time moves only while a request is stuck on a peer that stalls on purpose). ' + TB),
     'C02': dict(
